@@ -11,7 +11,6 @@ Section Run2.
 Variable F : fops.
 Variable bld : build.
 Variable P : program.
-Variable reenter : N -> state -> rres.
 Variable T : list (N * N).
 Variable names : list str.
 
@@ -20,9 +19,9 @@ Hypothesis T_inj : forall h1 h2 id, nm_find h1 T = Some id -> nm_find h2 T = Som
 Hypothesis names_inj : handles_inj names = true.
 Hypothesis P_small : code_len P < 2147483648.
 
-Notation steps' := (steps F bld P reenter cap calls0 (@nil obj) None (@nil (list tval))).
-Notation exec1' := (exec1 F bld P reenter cap calls0 (@nil obj) None (@nil (list tval))).
-Notation exec_err' := (exec_err F bld P reenter cap calls0 (@nil obj) None (@nil (list tval))).
+Notation steps' := (steps F bld P cap calls0 (@nil obj) None (@nil (list tval))).
+Notation exec1' := (exec1 F bld P cap calls0 (@nil obj) None (@nil (list tval))).
+Notation exec_err' := (exec_err F bld P cap calls0 (@nil obj) None (@nil (list tval))).
 Notation seg' := (seg P).
 Notation grel' := (grel T names).
 
@@ -72,11 +71,11 @@ Lemma cond_sim e pre (jump_if : bool) tgt rest gr gv :
   end.
 Proof.
   intros He Hseg Htgt Hn Hd Hrel Hsimp. destruct (seg_mid _ _ _ _ Hseg) as (Se & Hc & _).
-  pose proof (expr_f1_sim F bld P reenter T names T_lt names_inj e He pre [] gr gv Se Hn Hrel Hsimp
+  pose proof (expr_f1_sim F bld P T names T_lt names_inj e He pre [] gr gv Se Hn Hrel Hsimp
                           ltac:(cbn [length]; lia)) as Hex.
   destruct (ev gr e) as [v|] eqn:Ev; [|exact Hex].
   eapply steps_trans; [exact Hex|]. apply steps_1.
-  pose proof (@ex_goto_if F bld P reenter cap calls0 [] None [] jump_if (bytes (pre ++ code_expr T e)) tgt []
+  pose proof (@ex_goto_if F bld P cap calls0 [] None [] jump_if (bytes (pre ++ code_expr T e)) tgt []
                 (to_vm v) (RefSem.v_bool [] v) gv Hc Htgt (vm_not F [] v (ev_simple _ _ _ Hsimp Ev))) as X.
   rewrite bytes_app in X. rewrite bytes_app. exact X.
 Qed.
@@ -207,7 +206,7 @@ Proof.
            split; [rewrite !app_length; cbn [length]; rewrite app_length; cbn [length]; lia|]. split; [|exact Hr'].
            eapply steps_trans; [eapply steps_trans; [exact Hcond | exact Hst]|].
            apply steps_1. rewrite Hend.
-           apply (@ex_goto F bld P reenter cap calls0 [] None [] _ (else_at + bytes cb) [] gv' Hcg Hsmall).
+           apply (@ex_goto F bld P cap calls0 [] None [] _ (else_at + bytes cb) [] gv' Hcg Hsmall).
         -- destruct Hbody as (k & c1' & nm & Hk & Hst & Herr & Hr'). exists (length ce + 1 + k)%nat, c1', nm.
            split; [rewrite !app_length; cbn [length]; rewrite app_length; cbn [length]; lia|]. split; [|auto].
            eapply steps_trans; [exact Hcond|]. exact Hst.
@@ -233,7 +232,7 @@ Proof.
   - (* SetGlobalVar *)
     assert (Hd1 : depth_ok [CSetGlobalVar name c] = true).
     { cbn [depth_ok forallb stmt_depth andb]. cbn [stmt_depth2] in Hdepth. rewrite andb_true_r. apply Nat.ltb_lt. exact Hdepth. }
-    pose proof (cards_sim F bld P reenter T names T_lt T_inj names_inj [CSetGlobalVar name c]
+    pose proof (cards_sim F bld P T names T_lt T_inj names_inj [CSetGlobalVar name c]
                   ltac:(cbn [forallb stmt_f1]; rewrite Hc; reflexivity) Hd1 pre gr gv
                   ltac:(cbn [code_main flat_map]; rewrite app_nil_r; exact Hseg)
                   ltac:(cbn [main_names flat_map]; rewrite app_nil_r; exact Hnames) Hrel Hsimp) as H1.
@@ -341,7 +340,7 @@ Proof.
   assert (Hrel0 : grel T names [] []).
   { intros x _. unfold gread. cbn [RefSem.assoc option_map].
     destruct (nm_find (handle_of_bytes x) T) as [id|]; [|reflexivity]. destruct (N.to_nat id); reflexivity. }
-  pose proof (cards_sim2 F bld P re T names Tlt Tinj Hinj Psmall cards Hcards Hdepth [] [] [] Hseg Hnm Hrel0 (Forall_nil _)) as Hsim.
+  pose proof (cards_sim2 F bld P T names Tlt Tinj Hinj Psmall cards Hcards Hdepth [] [] [] Hseg Hnm Hrel0 (Forall_nil _)) as Hsim.
   unfold cards_sim_res2 in Hsim. rewrite Hrun in Hsim. destruct Hsim as [_ Hsim].
   assert (Hread : forall s' gv', st_globals s' = gv' -> grel T names g gv' ->
             forall x, no_collision names x ->
@@ -351,7 +350,7 @@ Proof.
   change (bytes []) with 0 in Hsim. fold n in Hsim.
   destruct (RefSem.ob_kind o) as [|kk] eqn:Ek.
   - destruct Hsim as (k & gv' & Hk & Hsteps & Hrel).
-    destruct (loop_steps Hsteps (budget - k) HS2) as (s' & HS' & El); [cbn [fst snd]; lia|].
+    destruct (loop_steps re Hsteps (budget - k) HS2) as (s' & HS' & El); [cbn [fst snd]; lia|].
     cbn [fst snd] in HS', El. replace (k + (budget - k))%nat with budget in El by lia.
     assert (Hex : code_at P (bytes (code_main2 T 0 cards)) IExit) by (eapply code_at_encode; exact Hcode).
     replace (budget - k)%nat with (S (budget - k - 1)) in El by lia.
@@ -361,10 +360,10 @@ Proof.
     eapply Hread; eauto.
   - destruct Hkind as [Hk|Hk]; [discriminate|]. injection Hk as ->.
     destruct Hsim as (k & c1 & nm & Hk & Hsteps & Herr & Hrel).
-    destruct (loop_steps Hsteps (budget - k) HS2) as (s' & HS' & El); [cbn [fst snd]; lia|].
+    destruct (loop_steps re Hsteps (budget - k) HS2) as (s' & HS' & El); [cbn [fst snd]; lia|].
     cbn [fst snd] in El. replace (k + (budget - k))%nat with budget in El by lia.
     replace (budget - k)%nat with (S (budget - k - 1)) in El by lia.
-    destruct (@loop_err F bld P re _ _ _ _ _ (budget - k - 1) c1 _ s' _ Herr HS') as (s'' & Eerr & Hg''); [lia|].
+    destruct (@loop_err F bld P _ _ _ _ _ re (budget - k - 1) c1 _ s' _ Herr HS') as (s'' & Eerr & Hg''); [lia|].
     rewrite Eerr in El.
     rewrite El. cbn [finish outcome_of fst snd vm_kind kind_of_err]. split; [reflexivity|].
     eapply Hread; eauto.
